@@ -1,6 +1,7 @@
 """C12 - loading is idempotent and never mutates what the service registered.
 E2: BFS over interleavings of load / forced load / enforce / edit / register
 across 1-3 enforcers sharing one list of default objects.  DESIGN 4/C12."""
+import itertools
 import os
 import sys
 
@@ -391,6 +392,68 @@ def run(job, seed):
     return acc.result()
 
 
+def run_nooverwrite(acc, depth):
+    """Enforcer(overwrite=False): files are MERGED into the store, so there
+    is no fresh-enforcer oracle once contents change (names dropped from a
+    file legitimately linger, and a forced reload re-applies the main file
+    over them).  What holds without qualification: while NO file content
+    changes - files are only touched (same bytes, new mtime) - every load,
+    ordinary or forced, leaves the table of the first load.  Every history
+    over {load, enforce, force, touch main file, touch directory file} up to
+    `depth`, a main file and a directory file that define the same name."""
+    from oslo_policy import policy as P
+    ops = ('load', 'enforce', 'force', 'touch-main', 'touch-dir')
+    for n in range(1, depth + 1):
+        for hist in itertools.product(ops, repeat=n):
+            if hist[-1].startswith('touch'):
+                continue
+            w = world.FileWorld()
+            try:
+                w.mkdir('p[d]')
+                w.write('policy.yaml', world.dumps_policy(
+                    {'svc:chg': 'role:fmain', 'svc:plain': 'role:fmain'},
+                    'json'))
+                w.write('p[d]/a.yaml', world.dumps_policy(FILES['x0'],
+                                                          'json'))
+                conf = world.new_conf(w.root, policy_dirs=['p[d]'],
+                                      enforce_new_defaults=False)
+                enf = P.Enforcer(conf, overwrite=False)
+                enf.suppress_deprecation_warnings = True
+                enf.register_defaults(shared_defaults(P))
+                enf.load_rules()
+                first = (c10.printed(enf.rules), _vec(enf))
+                for op in hist:
+                    if op == 'load':
+                        enf.load_rules()
+                    elif op == 'force':
+                        enf.load_rules(force_reload=True)
+                    elif op == 'enforce':
+                        enf.enforce('svc:new', {}, {'roles': ['dn']})
+                    elif op == 'touch-main':
+                        w.touch('policy.yaml')
+                    else:
+                        w.touch('p[d]/a.yaml')
+                acc.ev()
+                now = (c10.printed(enf.rules), _vec(enf))
+                acc.case('nooverwrite', n >= 2)
+                if now != first:
+                    acc.violation(
+                        'not-idempotent|nooverwrite|%s' % ' '.join(hist),
+                        'overwrite=False enforcer, no file content ever '
+                        'changed; after %s the table is %r, the first load '
+                        'gave %r' % (' '.join(hist), now[0], first[0]),
+                        {'history': ['nooverwrite'] + list(hist)},
+                        first[0], now[0], 'nooverwrite')
+                acc.outcome('nooverwrite-same')
+            finally:
+                w.destroy()
+
+
+def _vec(enf):
+    return [1 if enf.enforce(n, {}, {'roles': [r] if r else []}) else 0
+            for n in NAMES for r in [None] + ROLES]
+
+
 def explore(tier, seed, pmap):
     results = []
     info = {}
@@ -412,6 +475,7 @@ def explore(tier, seed, pmap):
         tot_s += st['states']
         tot_t += st['transitions']
     extra = core.Acc()
+    run_nooverwrite(extra, 4 if tier == 'quick' else 6)
     extra.extra.update({'states': tot_s, 'transitions': tot_t,
                         'traces_validated_against_impl': tot_t,
                         'topologies': info})
@@ -430,6 +494,11 @@ def finalize(merged, tier, seed):
 def replay(doc):
     hist = doc['case']['history']
     acc = core.Acc()
+    if hist[0] == 'nooverwrite':
+        run_nooverwrite(acc, len(hist) - 1)
+        key = 'not-idempotent|nooverwrite|%s' % ' '.join(hist[1:])
+        return [v for v in acc.result()['viol'] if v.get('key') == key] \
+            or None
     for n in range(2, len(hist) + 1):
         s, out = replay_history(hist[:n])
         s.close()
